@@ -27,6 +27,7 @@
 #include <stdlib.h>
 #include <string.h>
 #include <stdint.h>
+#include <stddef.h>
 #include <unistd.h>
 #include <sys/wait.h>
 #include <signal.h>
@@ -730,6 +731,71 @@ run_xv(imbh_variant *v, int nv, uint64_t seed)
         return 0;
 }
 
+/*
+ * Same naming and de-duplication as imbh_enum_variants(), but a manager whose init ended with
+ * IMB_ERR_SELFTEST is kept (a broken helper usually trips the power-on self test, and the failing
+ * key still has to be located); "selftest var=<v> errno=<e>" is printed for every variant.
+ */
+static int
+enum_variants_tolerant(imbh_variant v[IMBH_MAX_VARIANTS], const int report)
+{
+        static const char *const init_names[3] = { "sse", "avx2", "avx512" };
+        const size_t fb = offsetof(IMB_MGR, get_next_job), fe = offsetof(IMB_MGR, earliest_job);
+        int n = 0;
+
+        for (int init = 0; init < 3; init++)
+                for (uint64_t flags = 0; flags < IMBH_NUM_FLAGS; flags++) {
+                        IMB_MGR *mgr = alloc_mb_mgr(flags);
+                        const uint64_t need = init == 0   ? IMB_CPUFLAGS_SSE
+                                              : init == 1 ? IMB_CPUFLAGS_AVX2
+                                                          : IMB_CPUFLAGS_AVX512;
+
+                        if (mgr == NULL)
+                                continue;
+                        if ((mgr->features & need) != need) {
+                                free_mb_mgr(mgr);
+                                continue;
+                        }
+                        if (init == 0)
+                                init_mb_mgr_sse(mgr);
+                        else if (init == 1)
+                                init_mb_mgr_avx2(mgr);
+                        else
+                                init_mb_mgr_avx512(mgr);
+                        const int e = imb_get_errno(mgr);
+
+                        if (e != 0 && e != IMB_ERR_SELFTEST) {
+                                free_mb_mgr(mgr);
+                                continue;
+                        }
+                        int dup = 0;
+
+                        for (int i = 0; i < n; i++)
+                                if (v[i].used_arch == mgr->used_arch &&
+                                    v[i].arch_type == mgr->used_arch_type &&
+                                    memcmp((const uint8_t *) v[i].mgr + fb, (const uint8_t *) mgr + fb,
+                                           fe - fb) == 0)
+                                        dup = 1;
+                        if (dup || n >= IMBH_MAX_VARIANTS) {
+                                free_mb_mgr(mgr);
+                                continue;
+                        }
+                        memset(&v[n], 0, sizeof(v[n]));
+                        snprintf(v[n].name, sizeof(v[n].name), "%s:f%llu", init_names[init],
+                                 (unsigned long long) flags);
+                        v[n].init = init;
+                        v[n].flags = flags;
+                        v[n].used_arch = mgr->used_arch;
+                        v[n].arch_type = mgr->used_arch_type;
+                        v[n].features = mgr->features;
+                        v[n].mgr = mgr;
+                        if (report)
+                                printf("selftest var=%s errno=%d\n", v[n].name, e);
+                        n++;
+                }
+        return n;
+}
+
 int
 main(int argc, char **argv)
 {
@@ -747,7 +813,9 @@ main(int argc, char **argv)
                 } else
                         casefile = argv[i];
         }
-        int nv = imbh_enum_variants(v);
+        /* managers that fail their power-on self test are kept (and reported): a broken helper
+         * usually trips the self test, and the failing key still has to be located */
+        int nv = enum_variants_tolerant(v, !xv);
 
         if (strcmp(vsel, "all") != 0) {
                 int k = 0;
